@@ -544,7 +544,9 @@ func (e *Engine) checkExpected(id string, have []string) string {
 
 var ordRe = regexp.MustCompile(`#\d+$`)
 
-func stripOrd(s string) string { return s }
+// stripOrd removes the per-function site ordinal, so that an added or removed site of the same kind does not rename
+// the obligations that follow it.
+func stripOrd(s string) string { return ordRe.ReplaceAllString(s, "") }
 
 func main() {
 	if len(os.Args) < 2 {
@@ -600,6 +602,41 @@ func main() {
 			fmt.Println("note:", n)
 		}
 		fmt.Printf("%s: %d obligations, %d return paths, %d trivial\n", pos[0], len(rep.Obligations), rep.Paths, rep.Trivial)
+	case "expected":
+		// (re)writes /verif/expected_obligations.json from the current tree: run after a property is claimed
+		exp := map[string][]string{}
+		if data, err := os.ReadFile(filepath.Join(verifDir, "expected_obligations.json")); err == nil {
+			json.Unmarshal(data, &exp)
+		}
+		for _, id := range pos {
+			var names []string
+			for n, c := range e.contracts {
+				if hasProp(c.Props, id) && !c.Trusted {
+					names = append(names, n)
+				}
+			}
+			sort.Strings(names)
+			seen := map[string]bool{}
+			var list []string
+			for _, n := range names {
+				for _, o := range e.verifyFunc(n).Obligations {
+					k := stripOrd(o.Name)
+					// only contract-level obligations of the function itself are pinned: panic sites and obligations
+					// attributed to inlined helpers may legitimately come and go with harmless refactoring
+					contractLevel := map[string]bool{"post": true, "inv-entry": true, "inv-preserve": true, "site": true, "at": true, "send-inv": true,
+						"rangeinv-entry": true, "rangeinv-preserve": true, "decreases": true, "pre-go": true}[o.Kind]
+					if !seen[k] && contractLevel && strings.HasPrefix(o.Name, o.Func+"/") {
+						seen[k] = true
+						list = append(list, k)
+					}
+				}
+			}
+			sort.Strings(list)
+			exp[id] = list
+			fmt.Printf("%s: %d expected obligation names\n", id, len(list))
+		}
+		data, _ := json.MarshalIndent(exp, "", " ")
+		os.WriteFile(filepath.Join(verifDir, "expected_obligations.json"), data, 0644)
 	case "modset":
 		e.debugModset(pos[0])
 	case "list":
